@@ -29,7 +29,7 @@ def r03_2(ctx, rr):
     # writer (sequential): push_unchecked
     sb = F.one(r"^dict::elias_fano::EliasFanoBuilder::push_unchecked$")
     slf = ("var", "self", sb.params[0]["id"])
-    val = ("var", "value", sb.params[1]["id"])
+    val = ("var", sb.params[1]["name"], sb.params[1]["id"])
     l = ("field", slf, "l")
     cnt = ("field", slf, "count")
     writes = []
@@ -94,7 +94,7 @@ def r03_3(ctx, rr):
         sl = struct_literal_fields(F, b)
         if len(sl) != 1:
             raise AnchorMissing("%s: expected exactly one struct literal" % b.key)
-        ren = param_names(b)
+        ren = param_roles(b, ["n", "u"])
         lits[b.key] = {k: rename_vars(v, ren) for k, v in sl[0].items()}
     A, B = lits[seq.key], lits[con.key]
     n, u = ("var", "n"), ("var", "u")
